@@ -451,7 +451,17 @@ func judgeC14(c *SrvCase, obs *SrvObs, o *Outcome) {
 	o.Class("end=" + c.End)
 	// A handshake has failed when the model ends failed/aborted, or when the peer vanished while the server was waiting.
 	// A peer that merely stays silent has not failed (a Server imposes no handshake timeout of its own).
-	failing := m.Status == "failed" || m.Status == "aborted" || (m.Status == "pending" && c.End == "eof")
+	failing := m.Status == "failed" || m.Status == "aborted" || (m.Status == "pending" && (c.End == "eof" || c.End == "cut" || c.End == "close-now"))
+	if c.End == "close-now" && len(c.Script) > 0 {
+		failing = true // the peer was gone before the server could answer its last envelope
+	}
+	for _, g := range obs.Got {
+		if g.Env["state"] == "established" {
+			// the peer was told the session is established: whatever happens afterwards is the end of an established
+			// session (C13), not a failed handshake
+			return
+		}
+	}
 	if !failing {
 		return
 	}
@@ -461,8 +471,13 @@ func judgeC14(c *SrvCase, obs *SrvObs, o *Outcome) {
 		cause = "protocol-violation"
 	case m.Status == "failed":
 		cause = "rejected-credentials"
-	case m.Status == "pending" && c.End == "eof":
+	case c.End == "close-now":
+		cause = "peer-vanished-before-answer"
+	case m.Status == "pending" && (c.End == "eof" || c.End == "cut"):
 		cause = "peer-vanished"
+		if c.End == "cut" {
+			cause = "peer-reset"
+		}
 	case m.Status == "pending" && c.End == "silence":
 		cause = "peer-silent"
 	case m.Status == "aborted":
